@@ -5,7 +5,7 @@ from fractions import Fraction
 from .index import AnalysisError, is_spawn, walk_no_nested
 from .paths import Frame, local_aliases
 
-COPY_FUNCS = {'list', 'sorted', 'copy', 'deepcopy', 'tuple', 'set', 'frozenset'}
+COPY_FUNCS = {'list', 'sorted', 'copy', 'deepcopy', 'tuple', 'set', 'frozenset', 'dict'}
 
 # Classes with exactly one instance per simulation (Simulation.__init__ builds
 # one of each; parse_buffer_config returns one hot and one cold tier).  A
@@ -217,6 +217,147 @@ class Canon:
                         return '%s.%s%s' % (cname, repl, rest[len(want):])
         return s
 
+    # ---- provenance expressions ----------------------------------------
+    def p(self, e, frame, _depth=0, _seen=None):
+        """Provenance string: like c() but every local is replaced by the
+        expression(s) assigned to it anywhere in the function (flow-insensitive;
+        several definitions print as {a|b}); copy idioms are transparent; loop and
+        comprehension variables print as elem(<iterable>)."""
+        from .paths import assigned_names
+        if _depth > 25:
+            return '<deep>'
+        d = _depth + 1
+        seen = _seen or frozenset()
+        if e is None:
+            return 'None'
+        if isinstance(e, ast.Constant):
+            return repr(e.value)
+        if isinstance(e, ast.Name):
+            if frame is None:
+                return e.id
+            if e.id == 'self' and frame.func.cls is not None:
+                cn = self.class_name(frame.func.cls.name)
+                if frame.parent is None or cn in SINGLETONS:
+                    return cn
+            if e.id in frame.binding:
+                ex, fr = frame.binding[e.id]
+                return self.p(ex, fr if fr is not None else Frame(frame.func), d, seen)
+            key = (id(frame.func.node), e.id)
+            if key in seen:
+                return e.id
+            defs = assigned_names(frame.func).get(e.id)
+            if not defs or e.id in frame.func.params:
+                ts = {self.class_name(t) for t in self.repo.expr_types(e, frame.func)}
+                if len(ts) == 1 and next(iter(ts)) in SINGLETONS:
+                    return next(iter(ts))
+                return e.id
+            alts = set()
+            for n in defs:
+                s2 = seen | {key}
+                if isinstance(n, ast.Assign):
+                    tgt_is_name = any(isinstance(t, ast.Name) and t.id == e.id for t in n.targets)
+                    if tgt_is_name:
+                        alts.add(self.p(n.value, frame, d, s2))
+                    else:
+                        alts.add('unpack(%s)' % self.p(n.value, frame, d, s2))
+                elif isinstance(n, ast.AugAssign):
+                    alts.add('aug(%s)' % self.p(n.value, frame, d, s2))
+                elif isinstance(n, (ast.For, ast.AsyncFor, ast.comprehension)):
+                    if isinstance(n.target, ast.Name):
+                        alts.add('elem(%s)' % self.p(n.iter, frame, d, s2))
+                    else:
+                        alts.add('elem.part(%s)' % self.p(n.iter, frame, d, s2))
+                elif isinstance(n, ast.AnnAssign) and n.value is not None:
+                    alts.add(self.p(n.value, frame, d, s2))
+                else:
+                    alts.add(e.id)
+            if len(alts) == 1:
+                return next(iter(alts))
+            return '{' + '|'.join(sorted(alts)) + '}'
+        if isinstance(e, ast.Attribute):
+            if frame is not None:
+                ts = {self.class_name(t) for t in self.repo.expr_types(e, frame.func)}
+                if len(ts) == 1 and next(iter(ts)) in SINGLETONS:
+                    return next(iter(ts))
+            return self._rewrite(self.p(e.value, frame, d, seen) + '.' + e.attr)
+        if isinstance(e, ast.Subscript):
+            src = copy_source(e, order=True)
+            if src is not None:
+                return self.p(src, frame, d, seen)
+            base = self.p(e.value, frame, d, seen)
+            if isinstance(e.slice, ast.Slice):
+                key = ':'.join(self.p(x, frame, d, seen) if x is not None else ''
+                               for x in (e.slice.lower, e.slice.upper, e.slice.step))
+            else:
+                key = self.p(e.slice, frame, d, seen)
+            return self._rewrite('%s[%s]' % (base, key))
+        if isinstance(e, (ast.ListComp, ast.GeneratorExp, ast.SetComp)):
+            src = copy_source(e, order=True)
+            if src is not None:
+                return self.p(src, frame, d, seen)
+            g = e.generators[0]
+            conds = ''.join(' if ' + self.p(c, frame, d, seen) for c in g.ifs)
+            kind = 'set' if isinstance(e, ast.SetComp) else 'seq'
+            return '%s[%s for %s%s]' % (kind, self.p(e.elt, frame, d, seen),
+                                        self.p(g.iter, frame, d, seen), conds)
+        if isinstance(e, ast.Call):
+            src = copy_source(e, order=True)
+            if src is not None:
+                return self.p(src, frame, d, seen)
+            if frame is not None:
+                cals, exact = self.repo.resolve_call(e, frame.func)
+                if len(cals) == 1 and exact:
+                    g = self.getter_of(cals[0])
+                    if g is not None:
+                        from .paths import bind_args
+                        sub = Frame(cals[0], frame, bind_args(cals[0], e, frame), e)
+                        return self.p(g, sub, d, seen)
+            fn = e.func
+            if isinstance(fn, ast.Attribute):
+                fs = self.p(fn.value, frame, d, seen) + '.' + fn.attr
+            else:
+                fs = self.p(fn, frame, d, seen)
+            args = [self.p(a, frame, d, seen) for a in e.args]
+            args += ['%s=%s' % (k.arg, self.p(k.value, frame, d, seen)) for k in e.keywords]
+            return '%s(%s)' % (fs, ', '.join(args))
+        if isinstance(e, ast.BinOp):
+            return '(%s %s %s)' % (self.p(e.left, frame, d, seen), _OPS.get(type(e.op), '?'),
+                                   self.p(e.right, frame, d, seen))
+        if isinstance(e, ast.UnaryOp):
+            op = {ast.Not: 'not ', ast.USub: '-', ast.UAdd: '+', ast.Invert: '~'}[type(e.op)]
+            return '(%s%s)' % (op, self.p(e.operand, frame, d, seen))
+        if isinstance(e, ast.BoolOp):
+            j = ' and ' if isinstance(e.op, ast.And) else ' or '
+            return '(' + j.join(self.p(v, frame, d, seen) for v in e.values) + ')'
+        if isinstance(e, ast.Compare):
+            s = self.p(e.left, frame, d, seen)
+            for op, r in zip(e.ops, e.comparators):
+                s += ' %s %s' % (_CMP[type(op)], self.p(r, frame, d, seen))
+            return '(' + s + ')'
+        if isinstance(e, ast.IfExp):
+            return '{%s|%s}' % tuple(sorted([self.p(e.body, frame, d, seen),
+                                             self.p(e.orelse, frame, d, seen)]))
+        if isinstance(e, (ast.Tuple, ast.List)):
+            br = '()' if isinstance(e, ast.Tuple) else '[]'
+            return br[0] + ', '.join(self.p(x, frame, d, seen) for x in e.elts) + br[1]
+        if isinstance(e, ast.Dict):
+            return '{' + ', '.join('%s: %s' % (self.p(k, frame, d, seen), self.p(v, frame, d, seen))
+                                   for k, v in zip(e.keys, e.values) if k is not None) + '}'
+        if isinstance(e, ast.JoinedStr):
+            parts = []
+            for v in e.values:
+                if isinstance(v, ast.FormattedValue):
+                    parts.append('{' + self.p(v.value, frame, d, seen) + '}')
+                elif isinstance(v, ast.Constant):
+                    parts.append(str(v.value))
+            return 'f"' + ''.join(parts) + '"'
+        if isinstance(e, ast.Starred):
+            return '*' + self.p(e.value, frame, d, seen)
+        try:
+            return ast.unparse(e)
+        except Exception:
+            return '<expr>'
+
     def loc(self, e, frame):
         """Canonical location string of an lvalue-like expression, else None."""
         if isinstance(e, (ast.Attribute, ast.Subscript, ast.Name, ast.Call)):
@@ -244,7 +385,10 @@ _CMP = {ast.Eq: '==', ast.NotEq: '!=', ast.Lt: '<', ast.LtE: '<=', ast.Gt: '>',
         ast.GtE: '>=', ast.Is: 'is', ast.IsNot: 'is not', ast.In: 'in', ast.NotIn: 'not in'}
 
 
-def copy_source(v):
+ORDER_COPY = {'list', 'tuple', 'copy', 'deepcopy', 'dict'}
+
+
+def copy_source(v, order=False):
     """If v is a copy idiom of an expression S, return S; else None.
     Idioms: [x for x in S], list(S), sorted(S), copy(S), copy.copy(S), S[:], S.copy(),
     list(S.keys())."""
@@ -258,7 +402,7 @@ def copy_source(v):
         fn = v.func
         name = fn.id if isinstance(fn, ast.Name) else (
             fn.attr if isinstance(fn, ast.Attribute) else None)
-        if name in COPY_FUNCS and len(v.args) >= 1 and (
+        if name in (ORDER_COPY if order else COPY_FUNCS) and len(v.args) == 1 and not v.keywords and (
                 isinstance(fn, ast.Name) or (isinstance(fn.value, ast.Name)
                                              and fn.value.id == 'copy')):
             return v.args[0]
@@ -671,7 +815,7 @@ def affine(canon, e, fr, env=None, _d=0):
             if e.id in fr.binding:
                 ex, f2 = fr.binding[e.id]
                 return affine(canon, ex, f2 if f2 is not None else Frame(fr.func), None, d)
-            if env is None and e.id in fr.aliases:
+            if e.id in fr.aliases:
                 return affine(canon, fr.aliases[e.id], fr, env, d)
         return Affine({canon.c(e, fr): 1})
     if isinstance(e, ast.BinOp):
